@@ -310,6 +310,8 @@ impl FixtureDatabase {
             );
 
             let mut new_modules: HashSet<std::path::PathBuf> = HashSet::new();
+            // Imported modules that are already in the file cache but were not yet looked at
+            let mut cached_modules: HashSet<std::path::PathBuf> = HashSet::new();
 
             for file_path in &files_to_check {
                 if processed_files.contains(file_path) {
@@ -362,10 +364,14 @@ impl FixtureDatabase {
                                 }
                             }
 
-                            if !processed_files.contains(&canonical)
-                                && !self.file_cache.contains_key(&canonical)
-                            {
-                                new_modules.insert(canonical);
+                            if !processed_files.contains(&canonical) {
+                                if !self.file_cache.contains_key(&canonical) {
+                                    new_modules.insert(canonical);
+                                } else {
+                                    // Already analysed (e.g. opened in the editor before the scan
+                                    // got here): its own imports still have to be followed.
+                                    cached_modules.insert(canonical);
+                                }
                             }
                         }
                     }
@@ -393,17 +399,19 @@ impl FixtureDatabase {
                                 }
                             }
 
-                            if !processed_files.contains(&canonical)
-                                && !self.file_cache.contains_key(&canonical)
-                            {
-                                new_modules.insert(canonical);
+                            if !processed_files.contains(&canonical) {
+                                if !self.file_cache.contains_key(&canonical) {
+                                    new_modules.insert(canonical);
+                                } else {
+                                    cached_modules.insert(canonical);
+                                }
                             }
                         }
                     }
                 }
             }
 
-            if new_modules.is_empty() {
+            if new_modules.is_empty() && cached_modules.is_empty() {
                 debug!("No new modules found in iteration {}", iteration);
                 break;
             }
@@ -429,8 +437,8 @@ impl FixtureDatabase {
                 }
             }
 
-            // Next iteration will check the newly analyzed modules for their imports
-            files_to_check = new_modules.into_iter().collect();
+            // Next iteration will check the newly analyzed (and the already cached) modules for their imports
+            files_to_check = new_modules.into_iter().chain(cached_modules).collect();
         }
 
         // Re-analyze modules that were already cached but newly marked as
